@@ -2,6 +2,8 @@
 
 package verifref
 
+import "strconv"
+
 // Relax: named relaxations of the RFC 8259 grammar, one per recorded finding.
 type Relax struct {
 	NumberGo     bool // D3: a number token is a maximal run of [0-9.eE+-] that Go's float syntax accepts
@@ -389,4 +391,39 @@ func RefCanon(src []byte, html bool) []byte {
 		i++
 	}
 	return out
+}
+
+// NumberOutOfRange: does a strictly valid JSON text hold a number token whose
+// value does not fit a float64 (strconv.ParseFloat reports a range error)?
+// Decoding such a number into interface{} or a float is an error in
+// encoding/json as well (UnmarshalTypeError), so acceptance is not demanded.
+// (Number tokens are located outside strings; the text is assumed valid.)
+func NumberOutOfRange(b []byte) bool {
+	inStr := false
+	for i := 0; i < len(b); i++ {
+		c := b[i]
+		if inStr {
+			if c == '\\' {
+				i++
+			} else if c == '"' {
+				inStr = false
+			}
+			continue
+		}
+		if c == '"' {
+			inStr = true
+			continue
+		}
+		if c == '-' || isDigit(c) {
+			end, ok := NumberEnd(b, i)
+			if !ok {
+				return false
+			}
+			if _, err := strconv.ParseFloat(string(b[i:end]), 64); err != nil {
+				return true
+			}
+			i = end - 1
+		}
+	}
+	return false
 }
